@@ -284,6 +284,10 @@ def gen_level(rng, path, depth, with_pv=False):
             a["action"] = "append"      # one value per occurrence, any number of adjacent occurrences
         if chance(rng, 0.25):
             a["vp"] = I64
+        if with_pv and chance(rng, 0.2):
+            al = fresh(C_LONGS, longs)      # legal, and inert: not a key of the command
+            if al:
+                a["aliases"] = [(al.encode(), chance(rng, 0.5))]
         c["args"].append(a)
     # relations among options
     opts = [a for a in c["args"] if is_opt(a)]
@@ -558,8 +562,11 @@ def level_longs(c):
     for a in c["args"]:
         if a.get("long"):
             out.add(a["long"])
-        for n, _ in a.get("aliases", []):
-            out.add(n)
+        if is_opt(a):
+            # (an alias declared on a POSITIONAL is no key: MKeyMap registers the position only; a suggestion naming it
+            # names a flag that does not exist -- seeded change seed4/C10-2)
+            for n, _ in a.get("aliases", []):
+                out.add(n)
     return out
 
 
@@ -1398,11 +1405,12 @@ def gen_sugg(rng, n, dist):
             i = pick(rng, boundaries(seq))
             newlevels = with_level(levels, li, seq[:i] + [raw_item([b"--" + w])] + seq[i:])
         elif kind == "sublong":
-            subs = [s for s in c["subs"] if any(a.get("long") for a in s["args"])]
+            subs = [s for s in c["subs"] if any(a.get("long") or a.get("aliases") for a in s["args"])]
             if not subs:
                 continue
             s = pick(rng, subs)
-            base = pick(rng, sorted(level_longs(s) - {b"help"}) or [b"help"])
+            pos_aliases = sorted(n_ for a_ in s["args"] if not is_opt(a_) for n_, _ in a_.get("aliases", []))
+            base = pick(rng, pos_aliases) if pos_aliases and chance(rng, 0.5) else pick(rng, sorted(level_longs(s) - {b"help"}) or [b"help"])
             w = typo(rng, base)
             if w in level_longs(c) or not w or b"=" in w or w.startswith(b"-"):
                 continue
